@@ -46,7 +46,8 @@ CHECKS = {
         category="model_checking",
         text="Same pipeline as C02; clauses: Target() formula per regime (relative/absolute, x2 from 3.10, backward opcodes 3.11+, own inline caches from 3.12), "
              "findlabels() = set of all targets, is_jump_target marks = (labels + 3.11+ handler targets) on instruction starts, and alignment of every target "
-             "on compiler-produced code. Three observables (argval, findlabels, marks) are each compared with the spec, hence with each other.",
+             "on compiler-produced code. Four observables (argval, opc.findlabels, the package-level xdis.findlabels, marks) are each compared with "
+             "the spec, hence with each other; the empty code string is replayed under every table.",
         design_ref="DESIGN.md section 5 C04, specs S3 (S5 for handler targets)",
         note="As C02. CPython 3.13's Bytecode also labels exception-range boundaries (a listing device); the oracle uses get_instructions there.",
         technique="TLA+ jump-target semantics; TLC model checking + behaviour replay + trace validation against xdis and CPython",
@@ -86,6 +87,8 @@ CHECKS = {
              "token, the tree xdis's own unmarshaller returned (every field, constants by kind and value, sets as sets, exact consumption). "
              "MarshalGen.tla (the writer) is model-checked and every behaviour, wrapped in a code object with distinct field values for every "
              "layout class, is replayed into xdis and into the CPython owning the magic; the reader must accept the writer (round trip). "
+             "Every fifth generated stream is also read through a real file object with more data behind the object (exact consumption), "
+             "and every third file is loaded with a non-empty code_objects argument and compared with the load without it. "
              "CPython's own marshal.loads is validated against the same spec in every run.",
         design_ref="DESIGN.md section 5 C01, spec S1",
         note="For 1.0-2.6, 3.0-3.5 and PyPy the spec is the only oracle. Text floats via host float(). PyPy3 identifiers written as TYPE_STRING are "
@@ -110,7 +113,8 @@ CHECKS = {
         text="The reference reader of S1 (MarshalTrace.tla) is pointed at xdis's *output*: each file is loaded by xdis's own unmarshaller and written "
              "back with write_bytecode_file; TLC re-reads the written payload with the layout/format of the target magic and requires the tokens "
              "of the originally loaded tree; the target interpreter itself (2.7, 3.6-3.13) loads the written file (fork-isolated: a bad file can "
-             "abort CPython 2.7) and its tree is judged by the same reader; xdis re-reads its output. A writer that raises is accepted.",
+             "abort CPython 2.7) and its tree is judged by the same reader; xdis re-reads its output. In this writer mode the reader also requires "
+             "that only type codes the target version's marshal.c knows are used. A writer that raises is accepted.",
         design_ref="DESIGN.md section 5 C13, spec S1 (S2 for the header)",
         note="'Executing behaves identically' is reduced to code-object equality in the target. Two recorded findings (3.11+ layout, Python-2 types) "
              "cover the eras where the writer is known not to work; 3.0-3.10 is checked without exemption.",
@@ -120,7 +124,8 @@ CHECKS = {
         category="model_checking",
         text="Both directions of S1 on plain values: the value space is every value tree MarshalGen.tla enumerates (TLC, exhaustive within budget) plus "
              "boundary values; under each host (3.8-3.13) xdis.marsh.dumps(v) bytes are re-read by the reference reader against v's tokens and by the "
-             "host's marshal.loads; the host's marshal.dumps(v, 0) and (v, 1) bytes are read by xdis.marsh.loads and judged by the reference reader.",
+             "host's marshal.loads; the host's marshal.dumps(v, 0) and (v, 1) bytes are read by xdis.marsh.loads and judged by the reference reader. "
+             "A third of the values follows a dumps() that failed half-way, a third follows the marshalling of a Python-2 code object.",
         design_ref="DESIGN.md section 5 C14, spec S1",
         note="Text floats compared through the host's float(). Values are rebuilt from token lists by the harness.",
         technique="TLC-enumerated value space; TLC trace validation of xdis.marsh output/input against the reference marshal reader; host marshal as oracle",
@@ -130,7 +135,8 @@ CHECKS = {
         text="Spec S2 (PycHeader.tla): the header reader for the three forms (timestamp; timestamp+size; PEP 552 flag word then timestamp+size or "
              "64-bit source hash). PycHeaderMC.tla enumerates the full product released magic x flag word x field pattern (exhaustive), checks "
              "the reader's invariants and exports every header; each is put before a recognisable code object and loaded via load_module and "
-             "load_module_from_file_object; PycHeaderTrace.tla compares version, magic, timestamp, size, hash and code start. importlib's own "
+             "load_module_from_file_object, and listed with the 'header' format; PycHeaderTrace.tla compares version, magic, timestamp, size, hash "
+             "and code start (for the listing: the printed fields). importlib's own "
              "_classify_pyc/_validate_* (3.7-3.13) must accept the fields the spec extracted; real py_compile output of all nine interpreters in "
              "every invalidation mode is judged too.",
         design_ref="DESIGN.md section 5 C06, spec S2",
@@ -179,7 +185,7 @@ CHECKS = {
         text="Spec S13 (CodeConv.tla): Fields(host), ClassFor(host) and the actions ToPortable / ToNative / Replace. Under every host 3.8-3.13 each "
              "native code object of the sampled standard-library modules is converted with codeType2Portable, back with to_native(), and copied "
              "with replace(), the copy and once more the original converted back; TLC replays the four actions on the recorded field maps (the host's real attribute set: co_linetable and "
-             "co_exceptiontable included) and checks class, field preservation both ways, changed-copy and unchanged-original, and that nothing "
+             "co_exceptiontable included) and checks class, field preservation both ways, changed-copy and unchanged-original (also after the copy's list-valued fields are edited in place), and that nothing "
              "remembered from the first to_native() comes back for the copy. Two equal code objects under different file names are among the inputs.",
         design_ref="DESIGN.md section 5 C16, spec S13",
         note="Field values compared through digests. Quick: 8 modules per host (about 500 code objects each); thorough: 70 modules.",
@@ -205,6 +211,7 @@ CHECKS = {
              "instruction stream (breadth-first over code objects, as the disassembler visits them) and the parsed rows together and checks offset, "
              "opname, operand text, '>>' iff jump target, line column iff starts_line, CACHE rows only in 'bytes', no missing or extra rows; "
              "totality and an empty sys.stdout are clauses of the same judge. The pydisasm command is run on a subset: exit 0 and identical text. "
+             "The classic listing is also produced with show_source=True where the source file exists. "
              "The instruction stream itself is the one judged by C02-C05.",
         design_ref="DESIGN.md section 5 C12, spec S12",
         note="Extended formats: totality/cleanliness only. Line column before 2.3 not judged. Object addresses masked.",
